@@ -17,7 +17,7 @@ B (bounded): run-time postconditions, written from the property statement, on
    (shape)   row-aligned layout: one output row per input row
    (frame)   values and mask are not written to
  Rows with a null key or dropped by the mask are NOT constrained (C05/C06).
- + precondition monitors on the three kernels: window <= 32767 (int16 position / counter arrays), lengths, codes < ngroups.
+ + precondition monitors on the three kernels: window within the range of the per-group position / counter arrays (bound read from the kernel's current source), lengths, codes < ngroups.
 Oracle: executable specification over Python lists (temporal values as integers in the array's own unit), not pandas.
 """
 import itertools, io, contextlib
@@ -38,7 +38,7 @@ SCOPE = {"quick": "K (kernel entry points numba.rolling_*, codes over {-1,0,1}; 
          "thorough": "as quick with (ii) every interleaving n<=5 for every class and float n<=7 with 4 null patterns, P every label sequence n<=5, random cases up to 64 rows"}
 RULE = "a case = (level K/P, codes or labels, key kind/layout, value class, value-null pattern, mask, window[, min_periods]); distinct = distinct canonical JSON; non-trivial = a group with more rows than the window, or two groups, or a null key, or a null value, or a mask"
 ASSUMPTIONS = ["A-real: the running sum by add/evict equals the window sum only in real arithmetic: sums/means are compared with tolerance 1e-9 (float), 2^-48 x window x max|v| (int64, temporal)",
-               "int64 input is documented as downcast to float64 (allow_downcasting): its results are compared with float64 resolution, not exactly (the statement's exactness clause names float and temporal input)",
+               "int64 input is documented as downcast to float64 (allow_downcasting): min/max/shift/diff of int64 are compared with the float64 image of the exact answer (one ulp per operand), not exactly (the statement's exactness clause names float and temporal input)",
                "min_periods=None means min_periods=window (docstring; pandas' default) - the statement leaves the default open",
                "masks are boolean arrays (the documented mask type of the rolling methods); other mask kinds are C05's business",
                "BOUNDED: _apply_rolling (null value / dtype choice, view back to the time dtype), GroupBy._apply_rolling_or_cumulative_func, GroupBy.apply + pandas rolling + _build_group_sorted_index for index_by_groups=True are checked only within the stated scope"]
@@ -56,7 +56,7 @@ def make_values(vkind, n, nullpat=None):
     """-> (numpy array, logical values: None = null; temporal values as integers in the array's unit)"""
     nullpat = list(nullpat) if nullpat else [False] * n
     if vkind == "int":        # beyond 2^53, odd, distinct per position, not monotonic
-        vals = [2 ** 53 + 1 + 2 * i + 64 * ((i * 5) % 7) for i in range(n)]
+        vals = [2 ** 53 + 1 + 32 * i + 1024 * ((i * 5) % 7) for i in range(n)]
         return np.array(vals, dtype=np.int64), vals
     if vkind == "timedelta":
         vals = [None if nullpat[i] else (((i * 5) % 7) * 50 - 140) * 86_400_000_000_000 + 2 * i + 1 for i in range(n)]
@@ -112,6 +112,7 @@ def agree(got, exp, op, vkind, scale):
     if got is None: return False
     if exact_mode(op, vkind) and not (vkind == "float" and op == "diff"): return got == exp
     if vkind == "float": return abs(got - exp) <= 1e-9 * max(1.0, abs(exp), scale)
+    if vkind == "int" and op not in ("sum", "mean"): return abs(got - exp) <= (4.0 if op == "diff" else 2.0) * max(1.0, 2.0 ** -53 * abs(exp if op != "diff" else scale))   # float64 image of an int64 near 2^53: off by at most 1 per operand
     return abs(got - exp) <= max(2.0, 2.0 ** -48 * scale)
 
 
@@ -383,16 +384,31 @@ def check_case(sess, case):
 
 
 # ----------------------------------------------------------------------------- sidecar contracts on the real kernels
+def _counter_bound(fn):
+    """the largest window the kernel's per-group position / counter arrays can hold, read from the kernel's current source (None = 64-bit counters)"""
+    import inspect
+    try: src = inspect.getsource(getattr(fn, "py_func", fn))
+    except Exception: return None
+    return 32767 if "int16" in src else (2 ** 31 - 1 if "int32" in src else None)
+
+
 def install(sess):
+    from groupby_lib.groupby import numba as gn
+    bounds = {name: _counter_bound(getattr(gn, name)) for name in ("_rolling_sum_or_mean_1d", "_rolling_max_or_min_1d", "_rolling_shift_or_diff_1d")}
+    for name in bounds: sess.wrap("groupby_lib.groupby.numba", name, requires=_make_pre(bounds[name]), ensures=_post)
+
+
+def _post(out, group_key, *a, **k):
+    if len(out) != len(group_key): return "one output slot per row"
+
+
+def _make_pre(bound):
     def pre(group_key, values, ngroups, window, *a, **k):
         n = len(group_key); tot = sum(len(x) for x in values)
-        if window > 32767: return "window <= 32767 (the per-group position / counter arrays are int16): unguarded precondition"
+        if bound is not None and window > bound: return f"window <= {bound} (the per-group position / counter arrays are narrower than 64 bits): unguarded precondition"
         if window < 1: return "window >= 1"
         if tot != n: return f"total length of the value chunks ({tot}) != len(group_key) ({n})"
         if n and int(np.max(group_key)) >= ngroups: return "group code >= ngroups (out-of-bounds write into the per-group state)"
         mask = k.get("mask")          # _apply_rolling passes everything by keyword
         if mask is not None and (len(mask) != n or np.asarray(mask).dtype.kind != "b"): return "mask must be a boolean array of the length of the group key"
-    def post(out, group_key, *a, **k):
-        if len(out) != len(group_key): return "one output slot per row"
-    for name in ("_rolling_sum_or_mean_1d", "_rolling_max_or_min_1d", "_rolling_shift_or_diff_1d"):
-        sess.wrap("groupby_lib.groupby.numba", name, requires=pre, ensures=post)
+    return pre
